@@ -200,6 +200,8 @@ _MUSTCHECK
 static inline bool mbuf_get_uint64be(struct MBuf *buf, uint64_t *dst_p)
 {
 	uint32_t a, b;
+	if (mbuf_avail_for_read(buf) < 8)
+		return false;
 	if (!mbuf_get_uint32be(buf, &a)
 	    || !mbuf_get_uint32be(buf, &b))
 		return false;
